@@ -40,6 +40,7 @@ def parseRet (s : String) : Option (Option (Err Nat)) :=
   else if s = "cd" then some (some (.ctx .deadline))
   else if s = "ue" then some (some .clientEOF)
   else if s = "us" then some (some .serverEOF)
+  else if s.startsWith "other" then some (some (.peer 1000000))  -- an error value no peer ever returned
   else match s.toList with
     | 'p' :: r => (String.ofList r).toNat?.map (fun n => some (.peer n))
     | _ => none
